@@ -106,10 +106,29 @@ def small_scope():
                 yield '.'.join(p), [('lit', rhs)], {}, {'a': t}
 
 
+def literal_scope():
+    """every literal left side of a small catalogue (canonical and non-canonical spellings) against every right side of
+    a small catalogue, written out or filled from a target holding the value as a string or as the typed value"""
+    lhs = ["'a'", '"a"', "''", "'A'", "' a'", '1', '01', '1.0', '1.50', '1e0', '+1', '-0', '0', '0x1', '1_0', 'True', 'False',
+           'None', '(1,)', '[]', "{'a'}"]       # (no left side may contain a colon: the check splits at the first one)
+    rhs = ['a', 'A', '', ' a', 'a ', '1', '01', '1.0', '1.5', '1.50', '+1', '-0', '0', '10', 'True', 'true', 'False', 'None',
+           'none', '(1,)', '[]', "{'a': 1}"]
+    typed = [1, 1.0, 1.5, 0, True, False, None, 'a', '', [], (1,)]
+    for l in lhs:
+        for r in rhs:
+            yield l, [('lit', r)], {}, {}
+            yield l, [('hole', 't')], {'t': r}, {}
+        for v in typed:
+            if not isinstance(v, tuple):
+                yield l, [('hole', 't')], {'t': v}, {}
+        yield l, [('hole', 't')], {}, {}
+
+
 def run(run, binfo):
     tier, rng = run.tier, run.rng
     n = 4000 if tier == 'quick' else 80000
     gens = [gen_case(rng) for _ in range(n)]
+    gens += list(literal_scope())
     ss = list(small_scope())
     if tier == 'quick':
         ss = ss[::5]
